@@ -751,7 +751,7 @@ def run_model(ctx, kind, arg, dump_text, cases, tag):
         if ml.startswith("UNMODELLED"):
             ctx.bump("model-unmodelled-" + (ml.split(" ")[1] if " " in ml else "x"))
             continue
-        if trc in (-6, 134):
+        if trc in (-6, 134, 98):
             exp = "ABORT"
         elif trc == 124:
             exp = "HUGE"
